@@ -630,3 +630,50 @@ func constMapRows(p *Prog, global string) [][2]string {
 	}
 	return nil
 }
+
+// mapRowTerms is constMapRows for a table whose values may also be never-written package
+// variables (rendered by the variable's term name, as the explorer renders a read of it).
+func mapRowTerms(p *Prog, global string) [][2]string {
+	for _, pk := range p.Pkgs {
+		if !isProductPkg(pk.PkgPath, p.ModPath) || pk.Types == nil {
+			continue
+		}
+		sc := pk.Types.Scope()
+		for _, nm := range sc.Names() {
+			v, ok := sc.Lookup(nm).(*types.Var)
+			if !ok || p.abbrev(pk.PkgPath)+"."+nm != global || !p.neverWritten(v) {
+				continue
+			}
+			cl, ok := ast.Unparen(findInit(pk.Syntax, pk.TypesInfo, v)).(*ast.CompositeLit)
+			if !ok {
+				return nil
+			}
+			var rows [][2]string
+			for _, e := range cl.Elts {
+				kv, ok := e.(*ast.KeyValueExpr)
+				if !ok {
+					return nil
+				}
+				ktv, kok := pk.TypesInfo.Types[kv.Key]
+				if !kok || ktv.Value == nil {
+					return nil
+				}
+				val := ""
+				if vtv, vok := pk.TypesInfo.Types[kv.Value]; vok && vtv.Value != nil {
+					val = constTerm(vtv.Value).Key()
+				} else if id := selIdent(kv.Value); id != nil {
+					if gv, ok := pk.TypesInfo.Uses[id].(*types.Var); ok && gv.Pkg() != nil && gv.Parent() == gv.Pkg().Scope() && p.neverWritten(gv) {
+						val = p.abbrev(gv.Pkg().Path()) + "." + gv.Name()
+					}
+				}
+				if val == "" {
+					return nil
+				}
+				rows = append(rows, [2]string{constTerm(ktv.Value).Key(), val})
+			}
+			sort.Slice(rows, func(i, j int) bool { return rows[i][0] < rows[j][0] })
+			return rows
+		}
+	}
+	return nil
+}
